@@ -85,6 +85,7 @@ func (g *cpuRig) loadAltFromPrim() {
 	c.Interrupt = 0
 	c.PPC, c.PRK = 0, 0
 	c.OnWDM = nil
+	c.StepInfo = cpualt.StepInfo{}
 }
 
 func absPrim(c *cpu65c816.CPU) ref.State {
